@@ -13,7 +13,7 @@ LEVEL = 'exploration'
 BUDGET = {'quick': 1500, 'thorough': 6000}
 RULE = ('Hypothesis-generated histories: 1-3 Transform2D and 1-3 Transform3D instances built with default or '
         'generated constructor arguments, 1-4 listeners each subscribed to a generated subset of the three '
-        'change events (callbacks named like the event or renamed; some listeners belong to a family of classes built with the event_handler decorator (a base declaring one event, two subclasses declaring one more each, only the declared callbacks defined); some are instances of ONE probe class, each declaring its events in an __events__ attribute of its own; a third of the listeners are falsy objects - empty collections) on a generated subset of the transforms, then listeners subscribing / unsubscribing in between and assignments (also augmented +=) to '
+        'change events (callbacks named like the event or renamed; some listeners belong to a family of classes built with the event_handler decorator (a base declaring one event, two subclasses declaring one more each, only the declared callbacks defined); some are instances of ONE probe class, each declaring its events in an __events__ attribute of its own; a third of the listeners are falsy objects - empty collections) on a generated subset of the transforms, then listeners subscribing / unsubscribing in between, the dispatcher of the transform being cleared (clear(): no listener left, values kept) with listeners registering again afterwards, and assignments (also augmented +=) to '
         'position / rotation / scale with 2D rotations concentrated outside [0, 360) (negative, > 360, exact '
         'multiples of 360, tiny, large, ints and floats) and vectors given as Vec2/Vec3 or plain tuples. Oracle: '
         'after each assignment the property reads back the assigned value (2D rotation: value % 360.), exactly '
@@ -43,6 +43,9 @@ COMP = [0, 1, -2, 0.5, 3.25, -7.75, 100, 1e-3]
 
 def decode_op(t):
     sel, p = t
+    if sel == 10:
+        # the transform's dispatcher is cleared (every listener gone, the stored values stay) - listeners come back later
+        return [p % 6, 'clear', 'listener', p // 6]
     if sel >= 8:
         # a listener subscribes to / unsubscribes from a transform in the middle of the history
         return [p % 6, 'sub' if sel == 8 else 'unsub', 'listener', p // 6]
@@ -50,7 +53,7 @@ def decode_op(t):
 
 
 def strategy():
-    op = st.tuples(st.integers(0, 9), worldops.packed(6 * 16 ** 3)).map(decode_op)
+    op = st.tuples(st.integers(0, 10), worldops.packed(6 * 16 ** 3)).map(decode_op)
     return st.fixed_dictionaries({
         'n2': st.integers(1, 3), 'n3': st.integers(1, 3),
         'ctor': st.lists(st.integers(0, 16 ** 3 * 2 - 1), min_size=6, max_size=6),
@@ -207,6 +210,28 @@ def run_case(case):
         ti = tsel % len(transforms)
         t, dim = transforms[ti]
         del log[:]
+        if prop == 'clear':
+            current['t'] = None
+            try:
+                t.clear()
+            except Exception as exc:
+                viol('clear_raised', exception=repr(exc))
+            for e in EVENTS:
+                subs[(ti, e)].clear()
+            if log:
+                viol('callbacks_during_subscription', log=repr(log), during='clear')
+            check_reads('after clear() of the dispatcher')
+            # every second listener that is alive comes back at once (the others may come back through later ops)
+            alive = [i for i, l in enumerate(listeners) if l is not None]
+            for i in alive[p % 2::2]:
+                try:
+                    t.add_handler(listeners[i])
+                except Exception as exc:
+                    viol('add_handler_raised', listener=type(listeners[i]).__name__, exception=repr(exc))
+                for e in listener_events[i]:
+                    subs[(ti, e)].add(i)
+            facts['transform_cleared_and_listeners_registered_again'] += 1
+            continue
         if prop in ('sub', 'unsub'):
             alive = [i for i, l in enumerate(listeners) if l is not None]
             li = alive[p % len(alive)]
